@@ -485,10 +485,24 @@ func (s *sim) actDuplicate() bool {
 	if ut == nil {
 		return false
 	}
+	// half of the redeliveries come from a client that calls AddCredit whatever InsertTx answered (rescan-style);
+	// the credits delivered are those the ledger already holds for the transaction, so the ledger does not change
+	bang := ""
+	var have []credSpec
+	for i := range ut.outs {
+		if chg, ok := s.led.credit[wire.OutPoint{Hash: ut.hash, Index: uint32(i)}]; ok {
+			have = append(have, credSpec{uint32(i), chg})
+		}
+	}
+	if s.rng.Intn(2) == 0 && len(have) == len(ut.credits) {
+		bang = "!"
+	}
 	if x.blk == nil || s.rng.Intn(4) == 0 {
-		s.seen(ut) // redelivery of an unconfirmed notification (also for a tx that has confirmed meanwhile)
+		// redelivery of an unconfirmed notification (also for a tx that has confirmed meanwhile)
+		s.emit("ev seen%s %s cr=%s", bang, ut.tid, crStr(ut.credits))
+		s.apply(event{kind: "seen", tx: ut.txDef, credits: ut.credits})
 	} else {
-		s.emit("ev conf %s %d %s %d cr=%s", ut.tid, x.blk.height, hx(x.blk.hash), x.blk.time, crStr(ut.credits))
+		s.emit("ev conf%s %s %d %s %d cr=%s", bang, ut.tid, x.blk.height, hx(x.blk.hash), x.blk.time, crStr(ut.credits))
 		s.apply(event{kind: "conf", tx: ut.txDef, bm: &wtxmgr.BlockMeta{Block: wtxmgr.Block{Hash: x.blk.hash, Height: x.blk.height}, Time: time.Unix(x.blk.time, 0)}, credits: ut.credits})
 	}
 	s.tags["duplicate"] = true
@@ -884,7 +898,7 @@ func generate(rng *rand.Rand, tier string) []core.Case {
 	cases = append(cases, scripted()...)
 	nHist, nPair, nRaw := 220, 100, 120
 	if tier == "thorough" {
-		nHist, nPair, nRaw = 2500, 1200, 1000
+		nHist, nPair, nRaw = 1200, 500, 400
 	}
 	for i := 0; i < nHist; i++ {
 		nTx := 4 + rng.Intn(37)
